@@ -243,6 +243,15 @@ func (ps *probeSched) onTap(r *tapRec) {
 			ps.epoch[S.name] = ep
 			ps.hist[S.name] = nil
 		}
+		isLive := false
+		for _, x := range live {
+			if x == pg.Node {
+				isLive = true
+			}
+		}
+		if !isLive {
+			continue // a probe decided just before its target died: not part of the stable-set window
+		}
 		h := append(ps.hist[S.name], pg.Node)
 		ps.hist[S.name] = h
 		m := len(live)
